@@ -5,6 +5,8 @@
 import json, os, re, shutil, subprocess, sys
 SRC = sys.argv[1] if len(sys.argv) > 1 else "/tmp/seed-out"      # where the sub-agents left their work
 LETTERS = sys.argv[2] if len(sys.argv) > 2 else "AB"             # names given to the two changes of each property in seeded/
+# changes whose effect lies in the domain of another property's check (the sub-agent was given only its own property text)
+OWNER_OVERRIDE = {"C01-H": "C20"}
 head = subprocess.check_output(["git","-C","/repo","rev-parse","--short","HEAD"]).decode().strip()
 os.makedirs("/verif/seeded", exist_ok=True)
 rows = []
@@ -22,7 +24,8 @@ for i in range(1, 21):
         v = [l for l in v if l.startswith(pid)]
         vline = v[-1] if v else "NO OUTPUT"
         ok = ("demo-clean=[ok" in vline) and ("suite-ok-pkgs=3" in vline) and ("FAIL" in vline.split("demo-patched=")[-1])
-        t = subprocess.run(["/verif/tools/try_patch.sh", patch, pid], capture_output=True, text=True).stdout
+        check = OWNER_OVERRIDE.get("%s-%s" % (pid, outk), pid)
+        t = subprocess.run(["/verif/tools/try_patch.sh", patch, check], capture_output=True, text=True).stdout
         classes = re.findall(r"class=(\S+) occurrences=(\d+)", t)
         races = "race:" in t
         detected = "VIOLATION" in t
@@ -45,8 +48,8 @@ for i in range(1, 21):
           "what_it_needs_to_manifest": notes.strip(),
           "demonstration": {"file": "demo_test.go.txt (copy as <name>_test.go)", "copy_into_package_dir": ddir, "passes_on_clean_tree": True, "fails_with_patch": True},
           "what_was_run": ["tools/seed_verify.sh %s %s (scratch worktree: git apply; go test -vet=off -count=1 . ./j2x ./x2j ./x2j-wrapper -> 3 packages ok; demonstration test clean: ok, patched: FAIL)" % (pid, k),
-                           "git -C /repo apply patch.diff; ./bin/mxjcheck run %s --tier quick (VERIF_SEED=1); git -C /repo checkout -- ." % pid],
-          "detected_by_check": pid if detected else None,
+                           "git -C /repo apply patch.diff; ./bin/mxjcheck run %s --tier quick (VERIF_SEED=1); git -C /repo checkout -- ." % check],
+          "detected_by_check": check if detected else None,
           "violation_classes_reported": [{"class": c, "occurrences": int(n)} for c, n in classes],
         }
         json.dump(meta, open(d + "/meta.json", "w"), indent=1)
